@@ -17,7 +17,6 @@ NA = {
  "C22": "protocol-level safety over all executions of a distributed protocol (message delay, loss, Byzantine voters): not expressible as per-function contracts; the per-call threshold/quorum facts are covered under C18/C19/C21 where claimed",
  "C29": "oracle is a reference implementation of cryptographic primitives (BLAKE2b, xxHash, Keccak, ed25519/ZIP-215, schnorrkel, secp256k1) behind third-party assembly/unsafe code: no contract within reach decides digest or verdict equality",
  "C01": "not reached: the statement equates the computed root with the specification's Merkle root of a finite map for every history; the kernels it rests on are covered elsewhere (node encoding and header: C07, walkers of the in-memory trie: C02, hashed-value threshold: C06), but no contract carries 'root == specRoot(map)' through insert/delete/encode (needs an inductive specification of the trie shape, not attempted)",
- "C03": "not reached: snapshot isolation rests on the copy-on-write rule (a trie writes only nodes of its own generation); stating it needs a frame condition conditional on a field of the written object, which the engine does not have; sub-agents also showed that the unchanged code breaks the statement when a trie is modified after being snapshotted (by design of Snapshot)",
  "C04": "not reached: round trip through the database (WriteDirty / Load / GetFromDB) over a key-value store model; no contracts written",
  "C05": "not reached: proof generation / verification are recursive walks over decoded nodes with hashing as an oracle; no contracts written",
  "C14": "not reached: the only kernels within reach (compact integers, NewBodyFromEncodedBytes) are covered under C11; byte-for-byte agreement with an independent encoder for every chain type is outside per-function contracts over reflection-driven SCALE code",
